@@ -24,6 +24,8 @@ pub enum PortK {
     Default,
     ExplicitDefault,
     Other,
+    /// the OTHER scheme's default port, written out (http://h:443, https://h:80): not a default here
+    CrossDefault,
 }
 
 #[derive(Clone, Copy, Debug, PartialEq, Eq, Serialize, Deserialize)]
@@ -86,6 +88,10 @@ fn expect(c: &Case, lab_ports: Option<(u16, u16)>) -> Expect {
             PortK::Default => (String::new(), default_port),
             PortK::ExplicitDefault => (format!(":{default_port}"), default_port),
             PortK::Other => (":8088".to_string(), 8088),
+            PortK::CrossDefault => {
+                let p = if c.https { 80 } else { 443 };
+                (format!(":{p}"), p)
+            }
         }
     };
     let userinfo = match c.userinfo {
@@ -257,6 +263,7 @@ fn run_lab(c: &Case) -> Vec<(String, String)> {
             let line = String::from_utf8_lossy(&bytes[..bytes.iter().position(|&b| b == b'\r').unwrap_or(0)]).to_string();
             let url_port = match c.port {
                 PortK::Other => 8088,
+                PortK::CrossDefault => 80,
                 _ => 443,
             };
             let host = match c.host {
@@ -282,7 +289,7 @@ pub fn cases() -> Vec<Case> {
     let mut v = Vec::new();
     for https in [false, true] {
         for host in [HostK::Domain, HostK::SubDomain, HostK::V4, HostK::V6] {
-            for port in [PortK::Default, PortK::ExplicitDefault, PortK::Other] {
+            for port in [PortK::Default, PortK::ExplicitDefault, PortK::Other, PortK::CrossDefault] {
                 for path in [false, true] {
                     for query in [false, true] {
                         for fragment in [false, true] {
@@ -339,7 +346,7 @@ pub fn c08(ctx: &Ctx) -> Report {
     rep.set("exhaustive", true);
     rep.set(
         "rule",
-        "full matrix scheme {http, https} x host {domain, subdomain in mixed case, IPv4, IPv6} x port {default, explicit default, other} x path {empty, /p/q} x query x fragment x userinfo {none, user, user:password} x proxy {none, http, https} x proxy URL {with/without credentials, with/without port}; plain-http routes run against the scripted transport (address asked for + bytes written), every route involving TLS against the local TLS lab (which listener accepted, (domain, port) looked up, request read in clear by the peer, CONNECT line read by the proxy); every cell is distinct",
+        "full matrix scheme {http, https} x host {domain, subdomain in mixed case, IPv4, IPv6} x port {default, explicit default, other, the other scheme's default} x path {empty, /p/q} x query x fragment x userinfo {none, user, user:password} x proxy {none, http, https} x proxy URL {with/without credentials, with/without port}; plain-http routes run against the scripted transport (address asked for + bytes written), every route involving TLS against the local TLS lab (which listener accepted, (domain, port) looked up, request read in clear by the peer, CONNECT line read by the proxy); every cell is distinct",
     );
     rep.assume("the Host value of plain-http requests sent through a proxy is not constrained by the property and is not checked");
     rep.assume("in the TLS lab IP-literal origins are 127.0.0.1 / [::1] with the listener's port (there is no resolver for literals), so the three port variants collapse for those cells; they are distinct for domains and for all scripted cells");
